@@ -73,7 +73,11 @@ impl TokenIgnorer for FormattingToggler {
                 on_toggle_comment = true;
                 match parse_toggle(token.get_content()) {
                     Some(FormattingToggle::Off) => ignored = true,
-                    Some(FormattingToggle::On) => ignored = false,
+                    Some(FormattingToggle::On) => {
+                        // Only an `on` that ends a disabled region is part of that region
+                        on_toggle_comment = ignored;
+                        ignored = false;
+                    }
                     None => on_toggle_comment = false,
                 };
             }
